@@ -265,9 +265,11 @@ func (c *ScriptConn) Close() error {
 	if !atomic.CompareAndSwapInt32(&c.closed, 0, 1) {
 		return nil
 	}
-	c.doneOnce.Do(func() { close(c.done) })
+	// the queues first: a Write parked in a stall that is woken by done must find the pipe
+	// closed (io.ErrClosedPipe), never race a frame through before the queues are shut
 	c.in.close()
 	c.out.close()
+	c.doneOnce.Do(func() { close(c.done) })
 	return nil
 }
 
